@@ -28,7 +28,7 @@ def replay(chk, path):
 # gossip family (engine G): C02 C03 C04 C11 C13 C14 C17
 
 
-def _judge_trace(chk, v, sched_meta, what):
+def _judge_trace(chk, v, sched_meta, what, invariants=None, module="TraceG"):
     """Turns a trace verdict into VIOLATION / ok."""
     if v.violation:
         viol = v.violation
@@ -36,7 +36,8 @@ def _judge_trace(chk, v, sched_meta, what):
             what, viol["invariant"], viol["step_violations"], viol["line"] - 1,
             json.dumps(viol["cmds"][-1]) if viol["cmds"] else "init")
         chk.violation({"kind": "gossip-trace", "sched": dict(sched_meta, behaviours=[viol["cmds"]]),
-                       "invariant": viol["invariant"], "step_violations": viol["step_violations"]}, why)
+                       "invariant": viol["invariant"], "step_violations": viol["step_violations"],
+                       "invariants": invariants, "module": module}, why)
 
 
 def _geng_checks(chk, stats, what):
@@ -67,7 +68,7 @@ def run_schedules(chk, sched, label, nodes, invariants=None, module="TraceG", ex
     chk.traces += stats.get("behaviours", 0)
     chk.evaluations += stats.get("steps", 0)
     meta = {k: sched[k] for k in sched if k not in ("behaviours",)}
-    _judge_trace(chk, v, meta, label)
+    _judge_trace(chk, v, meta, label, invariants, module)
     return v, stats
 
 
@@ -140,7 +141,61 @@ def f4_known(chk):
         chk.notes["f4_not_reproduced"] = True
 
 
-def gossip_family(chk, mc_inv, mc_props, trace_inv, require_ops=(), module="Gossip", tmodule="TraceG",
+F4_TEXT = {
+    "C04": "F4 a delta answering a digest sent before the view was expired is applied onto the re-created view: "
+           "the gossip view has caught up with the owner but proxy_addr was skipped, so the node stays pending "
+           "and its endpoints never reach the routing table (site=applyDeltaEntry "
+           "sig=answered-digest-version>receiver-version)",
+    "C11": "F4 a delta answering a digest sent before the view was expired is applied onto the re-created view: "
+           "entries at or below the digest's version (e.g. the left marker) are skipped (site=applyDeltaEntry "
+           "sig=answered-digest-version>receiver-version)",
+}
+
+
+def f4_known_generic(chk, pid):
+    """F4 on the routing table (C04) / membership (C11): reproduce on the real code."""
+    known, _ = vp.known_findings()
+    if not any(k.get("id") == "F4" and k.get("property") == pid for k in known):
+        return
+    routing = pid == "C04"
+    if routing:
+        beh = [
+            ["AddEndpoint", "a", "e1"],
+            # b learns version 1 (proxy_addr) only: cut after header + 1 entry
+            ["StartRound", "b", "a", 0], ["DoRecvDigest", 1, False, 2], ["RecvDelta", 1, False], ["Lose", 2],
+            # b asks again (digest says a:1); the datagram is delayed
+            ["StartRound", "b", "a", 0],
+            # b considers a unreachable and expires it
+            ["SetSuspect", "b", "a", True], ["UpdateLiveness", "b"], ["RemoveExpired", "b", 1],
+            # the delayed request is answered now and applied onto the re-created view
+            ["RecvDigest", 1, False, 0, False], ["RecvDelta", 1, False],
+        ]
+        harm = "CaughtUpMirrorsAll"
+    else:
+        beh = [
+            ["UpsertLocal", "a", "k1", "x"], ["LeaveLocal", "a"],
+            ["StartRound", "b", "a", 0], ["DoRecvDigest", 1, False, 2], ["RecvDelta", 1, False], ["Lose", 2],
+            ["StartRound", "b", "a", 0],
+            ["SetSuspect", "b", "a", True], ["UpdateLiveness", "b"], ["RemoveExpired", "b", 1],
+            ["RecvDigest", 1, False, 0, False], ["RecvDelta", 1, False],
+        ]
+        harm = "PrefixConsistentAll"
+    sched = {"nodes": ["a", "b"], "initKnown": True, "behaviours": [beh]}
+    if routing:
+        sched.update({"routing": True, "endpoints": ["e1"]})
+    with vp.Scratch("f4") as d:
+        tp, stats = G.run_geng(d, sched, chk.seed, name="f4")
+        v = G.validate(chk, tp, ["a", "b"], invariants=["KeysUnique"], label="f4-signature")
+        v2 = G.validate(chk, tp, ["a", "b"], invariants=[harm], label="f4-harm")
+    chk.traces += 1
+    chk.evaluations += stats.get("steps", 0)
+    if v.f4 > 0 and v2.violation and v2.violation["invariant"] == harm:
+        chk.known("F4", F4_TEXT[pid])
+    else:
+        chk.notes["f4_not_reproduced"] = True
+
+
+def gossip_family(chk, mc_inv, mc_props, trace_inv, require_ops=(), module="Gossip", tmodule="TraceG", spec="Spec",
                   view="View", routing=False, mc_label=None, extra_consts=None, plan=None):
     """The common shape of the gossip-family checks:
     exhaustive TLC on the bounded model -> complete transition cover executed on the real code ->
@@ -163,15 +218,15 @@ def gossip_family(chk, mc_inv, mc_props, trace_inv, require_ops=(), module="Goss
         return b
 
     mc = dict(plan["mc"], **xc)
-    G.model_check(chk, label + "-exhaustive", mc, mc_inv, mc_props, view=view, module=module)
+    G.model_check(chk, label + "-exhaustive", mc, mc_inv, mc_props, view=view, module=module, spec=spec)
     if "mc2" in plan:
-        G.model_check(chk, label + "-relay", dict(plan["mc2"], **xc), mc_inv, mc_props, view=view, module=module,
+        G.model_check(chk, label + "-relay", dict(plan["mc2"], **xc), mc_inv, mc_props, view=view, module=module, spec=spec,
                       timeout=2400)
     covers = []
     for i, cc in enumerate(plan["covers"]):
         cc = dict(cc, **xc)
         nodes = sorted(cc["Node"])
-        beh, info = G.gen_cover(chk, "%s-cover%d" % (label, i), cc, module=module, view=view)
+        beh, info = G.gen_cover(chk, "%s-cover%d" % (label, i), cc, module=module, spec=spec, view="ViewCover")
         covers.append(info)
         chk.exhaustive = chk.exhaustive and info["uncovered_edges"] == 0
         v, st = run_schedules(chk, dict(sched_base(nodes), behaviours=beh), "cover%d" % i, nodes,
@@ -181,7 +236,7 @@ def gossip_family(chk, mc_inv, mc_props, trace_inv, require_ops=(), module="Goss
     sc, num, depth = plan["sim"]
     sc = dict(sc, **xc)
     nodes3 = sorted(sc["Node"])
-    beh = G.gen_sim(chk, label + "-sim", sc, num, depth, chk.seed, module=module)
+    beh = G.gen_sim(chk, label + "-sim", sc, num, depth, chk.seed, module=module, spec=spec)
     v, st = run_schedules(chk, dict(sched_base(nodes3), behaviours=beh), "sim", nodes3, invariants=trace_inv,
                           module=tmodule)
     account(st)
@@ -213,3 +268,80 @@ def c02(chk):
                   require_ops=["UpsertLocal", "DeleteLocal", "CompactLocal", "LeaveLocal", "StartRound",
                                "RecvDigest", "RecvDelta", "Lose", "RemoveExpired"])
     f4_known(chk)
+
+
+# ---------------------------------------------------------------------------
+C17_INV = ["KeysUnique", "MatchesRef", "VersionsWellFormed"]
+C17_PROPS = ["FreshVersionOnChange", "NoVersionOnNoop", "CompactKeepsLive"]
+C17_TRACE_INV = ["KeysUnique", "MatchesRef", "VersionsWellFormed", "PrefixConsistent", "NoFabrication",
+                 "NoStepViolation"]
+SYNC_TAIL = [["StartRound", "b", "a", 0], ["RecvDigest", 1, False, 0, False], ["RecvDelta", 1, False],
+             ["Lose", 2]]
+
+
+@prop("C17")
+def c17(chk):
+    chk.rule = ("every call sequence of the local API (upsert incl. empty values and repeated values, delete incl. "
+                "absent keys, compaction with thresholds 0..2, leave) of a bounded OwnMap.tla model = complete "
+                "transition cover executed on a real clusterState, followed by a full synchronisation of an "
+                "observer; plus random schedules; judged by TLC (TraceG.tla: MatchesRef, FreshVersionOnChange, "
+                "NoVersionOnNoop, CompactKeepsLive, PrefixConsistent at equal versions)")
+    chk.assumptions = ["keys starting with _internal: are not written by users",
+                       "CompactLocal is not called on an empty state (indexes entries[-1]; outside the property)"]
+    quick = chk.tier == "quick"
+    mc = G.consts(Node={"a", "b"}, Key={"k1", "k2"} if quick else {"k1", "k2", "k3"},
+                  Val={"", "x", "y"}, MaxVer=6 if quick else 8, Writers={"a"},
+                  Features={"leave", "compact"}, InitKnown=True)
+    G.model_check(chk, "C17-exhaustive", mc, C17_INV, C17_PROPS, view="OView", module="OwnMap", spec="OSpec")
+    cc = G.consts(Node={"a", "b"}, Key={"k1", "k2"}, Val={"", "x"} if quick else {"", "x", "y"},
+                  MaxVer=5 if quick else 6, Writers={"a"}, Features={"leave", "compact"}, InitKnown=True)
+    beh, info = G.gen_cover(chk, "C17-cover", cc, module="OwnMap", spec="OSpec", view="OView")
+    chk.notes["cover"] = info
+    chk.exhaustive = info["uncovered_edges"] == 0
+    beh = [b + SYNC_TAIL for b in beh]
+    v, st = run_schedules(chk, {"nodes": ["a", "b"], "initKnown": True, "behaviours": beh}, "cover",
+                          ["a", "b"], invariants=C17_TRACE_INV)
+    chk.nontrivial += st["steps"] - st["by_op"].get("Reset", 0)
+    ops = dict(st["by_op"])
+    sched = {"nodes": ["a", "b", "c"], "initKnown": True, "walks": 150 if quick else 3000, "depth": 80,
+             "keys": ["k1", "k2", "k3", "k4"], "vals": ["", "x", "y"], "writers": ["a", "b"], "masked": True,
+             "crashers": []}
+    v, st = run_schedules(chk, sched, "walks", sched["nodes"], invariants=C17_TRACE_INV)
+    chk.nontrivial += st["steps"] - st["by_op"].get("Reset", 0)
+    for k, n in st["by_op"].items():
+        ops[k] = ops.get(k, 0) + n
+    chk.notes["executed_calls_by_action"] = ops
+    for need in ("UpsertLocal", "DeleteLocal", "CompactLocal", "LeaveLocal", "RecvDelta"):
+        if ops.get(need, 0) == 0:
+            raise vp.Machinery("vacuous run: the real code never executed " + need)
+
+
+# ---------------------------------------------------------------------------
+C14_TRACE_INV = ["KeysUnique", "FoldEqualsView", "NoStepViolation"]
+
+
+def c14_plan(tier):
+    p = gossip_plan(None, tier)
+    if tier == "quick":
+        p["mc"] = G.consts(MaxVer=3, Features={"leave", "compact", "lose", "expire"})
+        p["covers"] = [G.consts(Key={"k1"}, MaxVer=3, MaxSlots=1, Features={"leave", "compact", "lose", "expire", "liveness"})]
+    else:
+        p["mc"] = G.consts(MaxVer=3, Features={"leave", "compact", "lose", "expire", "liveness"})
+        p.pop("mc2", None)
+    return p
+
+
+@prop("C14")
+def c14(chk):
+    chk.rule = ("the recording watcher's notifications from every executed call are folded by TLC (GossipObs.tla "
+                "FoldEv) and compared with the view read back from the node after every call; behaviours as for "
+                "C02 (transition cover, simulations, random schedules) with compaction, leave, liveness, expiry")
+    chk.assumptions = ["notifications about internal keys (_internal:*) are ignored by the fold",
+                       "the order of the deletions announced by one compaction marker is not part of the property"]
+    gossip_family(chk, ["FoldEqualsView"], [], C14_TRACE_INV, module="Watcher", extra_consts=G.OBS_FOLD,
+                  plan=c14_plan(chk.tier),
+                  require_ops=["UpsertLocal", "DeleteLocal", "CompactLocal", "LeaveLocal", "RecvDelta",
+                               "RemoveExpired", "UpdateLiveness"])
+
+
+import checks_routing  # noqa: E402,F401
